@@ -36,7 +36,7 @@ RULE = ('structural: all 1330 depth<=2 expressions over a 14-leaf alphabet (samp
         'distinct = distinct (provider, mode, query text)')
 
 QUICK = dict(n_random=240, n_enum=300, n_depth3=60, sem_random=90, sem_enum=110, sem_depth3=30, rows=6, search_random=260, search_ext=160)
-THOROUGH = dict(n_random=3000, n_enum=2000, n_depth3=600, sem_random=900, sem_enum=1330, sem_depth3=300, rows=24, search_random=4000, search_ext=3000)
+THOROUGH = dict(n_random=2500, n_enum=1330, n_depth3=500, sem_random=600, sem_enum=700, sem_depth3=200, rows=14, search_random=4000, search_ext=3000)
 
 
 def sizes(ctx, deep=False):
